@@ -62,3 +62,12 @@ Example C07_nonvacuous :
   snd (brun cfg (binit 0) [BBegin 1; BEnd 1 false; BBegin 2; BEnd 2 false; BBegin 3; BAdv 61; BBegin 4; BBegin 5; BEnd 4 true])
   = [(0, 0); (-1, 0); (0, 0); (-1, 1); (1, 1); (-1, 1); (0, 2); (2, 2); (-1, 0)].
 Proof. cbn zeta. split; [unfold bwf_cfg; cbn; lia|]. vm_compute. reflexivity. Qed.
+
+(* ---- concurrent callers (step-level model Model/Conc.v, replayed on the real code by the sched suite) ---- *)
+From Helios Require Import Model.Conc Proofs.ConcProofs.
+(* for EVERY schedule of ANY number of concurrent callers arriving at the open -> half-open boundary, at most max_requests of
+   them are admitted as trials *)
+Theorem C07_trials_bounded_under_concurrency :
+  forall n maxreq sched, 0 <= maxreq -> s2_ok maxreq (fst (s2_run n maxreq sched)) = true.
+Proof. exact s2_all_schedules. Qed.
+Print Assumptions C07_trials_bounded_under_concurrency.
